@@ -664,7 +664,75 @@ func TestVerifC06DST(t *testing.T) {
 		fmt.Sprintf("%d combinations", len(space)), len(space), func(i int) c06Case { return c06DSTCase(space[i]) }, checkC06)
 }
 
+// ---------------------------------------------------------------------------
+// the current date given by the configuration file as a local time (with the offset the process zone has at that moment),
+// in zones east of UTC with daylight saving, on and after the days that have 23 or 25 hours: the keywords go back whole
+// calendar days. The oracle is integer day arithmetic; the time package is only used to write the offset into the entry.
+
+type c06NowCase struct {
+	Zone    string `json:"zone"`
+	Day     int    `json:"day"`     // today's calendar date (day number)
+	Minute  int    `json:"minute"`  // local time of day
+	Keyword string `json:"keyword"` // yesterday | last7 | last30 | today
+}
+
+func checkC06NowDST(c c06NowCase, ctx *vCtx) *vFailure {
+	loc := vZone(c.Zone)
+	y, m, d := vCivil(c.Day)
+	now := time.Date(y, time.Month(m), d, c.Minute/60, c.Minute%60, 0, 0, loc)
+	cfg := vWriteFile("c06-now.conf", "[Global]\nNow="+now.Format(time.RFC3339)+"\n")
+	back := map[string]int{"today": 0, "yesterday": 1, "last7": 7, "last30": 30}[c.Keyword]
+	var lb strings.Builder
+	for dd := c.Day - 33; dd <= c.Day+2; dd++ {
+		fmt.Fprintf(&lb, "%s:\n  food of day %d: 1\n", vFmtDay(dd, ""), dd-c.Day)
+	}
+	lp := vWriteFile("c06-now-log.yaml", lb.String())
+	bp := vWriteFile("c06-now-book.yaml", "unused:\n  x: 1\n")
+	run := func(arg string) vRun {
+		ctx.Run(1)
+		return vRunApp(vInvocation{Args: []string{"--config", cfg, "-d", bp, "-l", lp, "--no-color", "summary", arg}, TZ: c.Zone})
+	}
+	got, want := run(c.Keyword), run(vFmtDay(c.Day-back, ""))
+	ctx.NonTrivial(true)
+	ctx.Label("zone:" + c.Zone)
+	if got.Failed || want.Failed {
+		return vFailf("summary %s / summary %s with Now=%s under TZ=%s failed: %s / %s", c.Keyword, vFmtDay(c.Day-back, ""), now.Format(time.RFC3339), c.Zone, got, want)
+	}
+	if want.Stdout == "" {
+		vFault("C06 nowdst: the reference summary is empty")
+	}
+	if got.Stdout != want.Stdout {
+		return vFailf("Now=%s under TZ=%s: summary %s is not the summary of %s (%d calendar days before today).\n--- got:\n%s\n--- expected:\n%s", now.Format(time.RFC3339), c.Zone, c.Keyword, vFmtDay(c.Day-back, ""), back, vTrunc(got.Stdout, 500), vTrunc(want.Stdout, 500))
+	}
+	return nil
+}
+
+func TestVerifC06NowDST(t *testing.T) {
+	var space []c06NowCase
+	type tr struct {
+		zone   string
+		spring [3]int // the day that has fewer than 24 hours
+		fall   [3]int // the day that has more
+	}
+	for _, z := range []tr{{"Europe/Berlin", [3]int{2021, 3, 28}, [3]int{2021, 10, 31}}, {"Europe/Sofia", [3]int{2021, 3, 28}, [3]int{2021, 10, 31}},
+		{"Australia/Lord_Howe", [3]int{2021, 10, 3}, [3]int{2021, 4, 4}}, {"Asia/Tokyo", [3]int{2021, 3, 28}, [3]int{2021, 10, 31}}} {
+		sp, fa := vDaysFromCivil(z.spring[0], z.spring[1], z.spring[2]), vDaysFromCivil(z.fall[0], z.fall[1], z.fall[2])
+		for _, kw := range []string{"today", "yesterday", "last7", "last30"} {
+			for _, off := range []int{1, 3, 6, 20} {
+				space = append(space, c06NowCase{Zone: z.zone, Day: sp + off, Minute: 30, Keyword: kw}, c06NowCase{Zone: z.zone, Day: sp + off, Minute: 12 * 60, Keyword: kw})
+			}
+			for _, off := range []int{0, 2, 5, 20} {
+				space = append(space, c06NowCase{Zone: z.zone, Day: fa + off, Minute: 23*60 + 30, Keyword: kw}, c06NowCase{Zone: z.zone, Day: fa + off, Minute: 12 * 60, Keyword: kw})
+			}
+		}
+	}
+	vEnum(t, "C06", "c06.nowdst",
+		"the current date from a Now= entry written as a local time with the zone's offset, process zone Europe/Berlin, Europe/Sofia, Australia/Lord_Howe (half-hour shift) or Asia/Tokyo (control), today 1..20 days after the short day at 00:30 or on/after the long day at 23:30, keywords today/yesterday/last7/last30 as summary argument; oracle: the summary of the date that many calendar days earlier",
+		fmt.Sprintf("%d combinations", len(space)), len(space), func(i int) c06NowCase { return space[i] }, checkC06NowDST)
+}
+
 func init() {
+	vRegister("C06", "c06.nowdst", checkC06NowDST)
 	vRegister("C06", "c06.dst", checkC06)
 	vRegister("C06", "c06.random", checkC06)
 	vRegister("C06", "c06.enum", checkC06)
